@@ -33,6 +33,7 @@ var relations = []string{
 	"ntt-roundtrip", "ntt-product", "ntt-product-montgomery", "ntt-evaluation", "ntt-lazy", "ntt-linearity",
 	"automorphism", "automorphism-ntt", "automorphism-ntt-thenadd", "automorphism-compose",
 	"monomial", "shift", "rnsscalar", "evalpolyscalar", "ringqp",
+	"crt", "monomial-xi", "ci-unfold-ntt",
 }
 
 func genRelCase(t *rapid.T) RelCase {
@@ -498,6 +499,113 @@ func runRelCase(c RelCase, rec *h.Rec) error {
 			if err := polyEq(r, "EvalPolyScalar:input-mutated", polys[d], ref[d], qs, false); err != nil {
 				return err
 			}
+		}
+
+	case "crt":
+		// SetCoefficientsBigint / PolyToBigint / PolyToBigintCentered / PolyToString against an independent CRT
+		Q := h.ProdU(qs)
+		gap := 1 << (uint(c.K&3) % 3) // 1, 2, 4
+		want := h.CRT(a0, qs)
+		got := make([]*big.Int, n/gap)
+		r.PolyToBigint(a, gap, got)
+		for i := range got {
+			if got[i] == nil || got[i].Cmp(want[i*gap]) != 0 {
+				return h.Failf("C01:PolyToBigint", "gap %d coefficient %d: got %v want %v", gap, i, got[i], want[i*gap])
+			}
+		}
+		gotc := make([]*big.Int, n/gap)
+		for i := range gotc {
+			gotc[i] = new(big.Int)
+		}
+		r.PolyToBigintCentered(a, gap, gotc)
+		half := new(big.Int).Rsh(Q, 1)
+		for i := range gotc {
+			w := new(big.Int).Set(want[i*gap])
+			// documented: centred around Q/2; a value equal to floor(Q/2) may be reported as either representative
+			if w.Cmp(half) > 0 {
+				w.Sub(w, Q)
+			}
+			alt := new(big.Int).Sub(w, Q)
+			if gotc[i].Cmp(w) != 0 && !(want[i*gap].Cmp(half) == 0 && gotc[i].Cmp(alt) == 0) {
+				return h.Failf("C01:PolyToBigintCentered", "gap %d coefficient %d: got %v want %v (Q=%v)", gap, i, gotc[i], w, Q)
+			}
+		}
+		strs := r.PolyToString(a)
+		for i := range strs {
+			if strs[i] != want[i].String() {
+				return h.Failf("C01:PolyToString", "coefficient %d: got %s want %s", i, strs[i], want[i])
+			}
+		}
+		// round trip through SetCoefficientsBigint with signed and oversized integers
+		x, _ := new(big.Int).SetString(c.Big, 10)
+		ints := make([]*big.Int, n)
+		for i := range ints {
+			ints[i] = new(big.Int).Add(want[i], new(big.Int).Mul(x, big.NewInt(int64(i%3-1))))
+		}
+		ints0 := make([]*big.Int, n)
+		for i := range ints {
+			ints0[i] = new(big.Int).Set(ints[i])
+		}
+		p := mk("max")
+		r.SetCoefficientsBigint(ints, p)
+		for i, q := range qs {
+			for j := 0; j < n; j++ {
+				if w := h.Mod(ints0[j], h.BU(q)).Uint64(); p.Coeffs[i][j] != w {
+					return h.Failf("C01:SetCoefficientsBigint", "limb %d (q=%d) coeff %d: got %d want %d", i, q, j, p.Coeffs[i][j], w)
+				}
+			}
+		}
+		for i := range ints {
+			if ints[i].Cmp(ints0[i]) != 0 {
+				return h.Failf("C01:SetCoefficientsBigint:input-mutated", "coefficient %d modified", i)
+			}
+		}
+		extra = fmt.Sprintf("|gap=%d", gap)
+
+	case "monomial-xi":
+		if ci {
+			rec.Class("skipped=monomial-in-ci")
+			return nil
+		}
+		p := r.NewMonomialXi(c.K)
+		kk := ((c.K % (2 * n)) + 2*n) % (2 * n)
+		for i, q := range qs {
+			for j := 0; j < n; j++ {
+				var w uint64
+				if kk < n && j == kk {
+					w = 1
+				} else if kk >= n && j == kk-n {
+					w = q - 1
+				}
+				if p.Coeffs[i][j] != w {
+					return h.Failf("C01:NewMonomialXi", "k=%d limb %d (q=%d) coeff %d: got %d want %d", c.K, i, q, j, p.Coeffs[i][j], w)
+				}
+			}
+		}
+		extra = fmt.Sprintf("|k=%s", classK(c.K, n))
+
+	case "ci-unfold-ntt":
+		// NTT in Z[X+X^-1]/(X^2N+1) unfolded to the standard ring of degree 2N == standard NTT of the symmetric embedding
+		if !ci || n > 512 {
+			rec.Class("skipped=ci-unfold-needs-ci")
+			return nil
+		}
+		rstd, err := ring.NewRing(2*n, c.Ring.Q)
+		if err != nil {
+			return h.Failf("C01:NewRing-rejects-valid-moduli", "%v", err)
+		}
+		rstd = rstd.AtLevel(lvl)
+		na := r.NewPoly()
+		r.NTT(a, na)
+		unf := rstd.NewPoly()
+		rstd.UnfoldConjugateInvariantToStandard(na, unf)
+		emb := rstd.NewPoly()
+		for i, q := range qs {
+			copy(emb.Coeffs[i], ciUnfold(a0[i], q))
+		}
+		rstd.NTT(emb, emb)
+		if err := polyEq(rstd, "UnfoldConjugateInvariantToStandard(NTT_ci(a))", unf, limbs(emb, lvl), qs, false); err != nil {
+			return err
 		}
 
 	case "ringqp":
